@@ -40,7 +40,7 @@ func cmdModelMaterialise(args []string) error {
 	return os.WriteFile(*out, mustJSON(doc), 0o644)
 }
 
-var rxModel = regexp.MustCompile(`swagger:model\s+(\S+)`)
+var rxModel = regexp.MustCompile(`swagger:(?:model|discriminator)\s+(\S+)`)
 
 type multiFlag []string
 
@@ -55,6 +55,7 @@ func cmdModelRegistry(args []string) error {
 	out := fs.String("out", "registry.go", "")
 	_ = fs.Parse(args)
 	var imports, entries []string
+	needPoly := false
 	for i, spec := range pkgs {
 		parts := strings.SplitN(spec, "=", 2)
 		alias := fmt.Sprintf("m%d", i)
@@ -65,6 +66,7 @@ func cmdModelRegistry(args []string) error {
 			return err
 		}
 		reg := map[string]string{}
+		isIface := map[string]bool{}
 		for _, p := range parsed {
 			for _, f := range p.Files {
 				for _, d := range f.Decls {
@@ -83,6 +85,9 @@ func cmdModelRegistry(args []string) error {
 						}
 						if m := rxModel.FindStringSubmatch(doc.Text()); m != nil {
 							reg[m[1]] = ts.Name.Name
+							if _, ok := ts.Type.(*ast.InterfaceType); ok {
+								isIface[m[1]] = true
+							}
 						}
 					}
 				}
@@ -94,10 +99,19 @@ func cmdModelRegistry(args []string) error {
 		}
 		sort.Strings(names)
 		for _, n := range names {
+			if isIface[n] {
+				// a discriminated base type is an interface: decode through the generated Unmarshal<Type> factory
+				entries = append(entries, fmt.Sprintf("\t%q: func() any {\n\t\treturn &polyBox{dec: func(r io.Reader, c runtime.Consumer) (any, error) { return %s.Unmarshal%s(r, c) }}\n\t},", n, alias, reg[n]))
+				needPoly = true
+				continue
+			}
 			entries = append(entries, fmt.Sprintf("\t%q: func() any { return new(%s.%s) },", n, alias, reg[n]))
 		}
 	}
 	var b strings.Builder
+	if needPoly {
+		imports = append([]string{"\t\"io\"", "\t\"github.com/go-openapi/runtime\""}, imports...)
+	}
 	b.WriteString("package main\n\nimport (\n" + strings.Join(imports, "\n") + "\n)\n\nvar registry = map[string]func() any{\n")
 	b.WriteString(strings.Join(entries, "\n"))
 	b.WriteString("\n}\n")
